@@ -84,6 +84,9 @@ FAMILIES = {
                   StalePick=1, Pre=5),
     "deep-fb4": fam(CfgMin=2, CfgMax=2, CfgWm=3, CfgFb=True, CfgUc=1, CfgUms=2, Keys=[1], AVs=[], CfgKinds=[], States=["READY", "TF"], Methods=["BOUND", "PLAIN"],
                     Outs=["OK"], Dls=[0], Advs=[], MaxConn=4, MaxCalls=5, StalePick=0, Pre=9),
+    # three channels: the home fails, the stand-in fails or is shut down, the third one must take over
+    "deep-fb5": fam(CfgMin=3, CfgMax=3, CfgWm=100, CfgFb=True, Keys=[1], AVs=[], CfgKinds=[], States=["READY", "TF", "SHUTDOWN"], Methods=["BOUND"],
+                    Outs=["OK"], Dls=[0], Advs=[], MaxConn=3, MaxCalls=5, StalePick=0, Pre=10),
     "deep-refresh": fam(CfgMin=1, CfgMax=2, CfgWm=1, CfgUc=1, CfgUms=2, Keys=[1], AVs=[1, 2], States=["READY", "TF", "SHUTDOWN"], Methods=["PLAIN"],
                         Outs=["OK", "CDE"], Dls=[0, 1], Advs=[3], MaxConn=4, MaxCalls=3, StalePick=0, Pre=6),
     "deep-ref2": fam(CfgMin=1, CfgMax=1, CfgWm=9, CfgUc=2, CfgUms=2, Keys=[1], AVs=[], States=["READY"], Methods=["PLAIN"], Outs=["OK", "CDE"],
@@ -105,7 +108,7 @@ PROP_FAMILIES = {
     "C05": ["faults", "deep-refresh", "faultsfb", "refreshfail", "deep-refbound", "spanner"],
     "C06": ["faultsfb", "faults", "rr", "refreshfail", "deep-rr", "spanner"],
     "C07": ["deep-ref2", "deep-refresh", "refresh2", "refresh", "refreshfail", "deep-affref", "rrrefresh", "spanner"],
-    "C08": ["deep-fb", "deep-fb3", "deep-fb4", "deep-fb2", "fallback", "fallbackrefresh", "faultsfb", "spanner"],
+    "C08": ["deep-fb", "deep-fb3", "deep-fb4", "deep-fb5", "deep-fb2", "fallback", "fallbackrefresh", "faultsfb", "spanner"],
     "C09": ["deep-rr", "rr", "rrrefresh", "spanner"],
     "C17": ["config0", "config1"],
     "C20": ["resolver", "deep-refresh", "refresh", "faults", "spanner"],
